@@ -467,6 +467,9 @@ impl Interaction {
         if vars.is_empty() {
             return Err("Interaction must act on at least one variable".to_string());
         }
+        if has_repeated_var(&vars) {
+            return Err("Interaction must not act on the same variable twice".to_string());
+        }
         let constant_along_diagonal = mat
             .iter()
             .cloned()
@@ -525,6 +528,8 @@ impl Interaction {
             let vars = vars.into();
             if vars.is_empty() {
                 Err("Interaction must act on at least one variable".to_string())
+            } else if has_repeated_var(&vars) {
+                Err("Interaction must not act on the same variable twice".to_string())
             } else if n != vars.len() {
                 Err(format!("Given {} vars, expected {}", vars.len(), n))
             } else {
@@ -689,6 +694,10 @@ impl Interaction {
             acc
         })
     }
+}
+
+fn has_repeated_var(vars: &[usize]) -> bool {
+    (1..vars.len()).any(|i| vars[..i].contains(&vars[i]))
 }
 
 fn get_mat_var_size(mat_len: usize) -> Result<usize, ()> {
